@@ -330,4 +330,39 @@ theorem run_sound (var : Variant) (hv : var.d8 = false) : ∀ (fuel : Nat) (sw :
     simp only [Bool.false_eq_true, if_false] at h2
     exact lookupPacket_sound (run var n) (fun sw acts f inPort => ih sw acts f inPort) _ _ _ _ _ _ _ h2
 
+/-! ## settling the buffers does not touch frames -/
+
+theorem settle_frames (p : Nat) (b : Bytes) : ∀ (o : List Out) (n : Nat), Out.frame p b ∈ (settle n o).2 ↔ Out.frame p b ∈ o := by
+  intro o
+  induction o with
+  | nil => intro n; simp [settle]
+  | cons x rest ih => intro n; cases x <;> simp [settle, ih]
+
+theorem settle_txCount (no : Nat) : ∀ (o : List Out) (n : Nat), txCount (settle n o).2 no = txCount o no := by
+  intro o
+  induction o with
+  | nil => intro n; rfl
+  | cons x rest ih =>
+    intro n
+    have hc : ∀ (y : Out) (l : List Out), txCount (y :: l) no = txCount [y] no + txCount l no := fun y l => txCount_append [y] l no
+    cases x <;> (simp only [settle]; rw [hc, ih, ← hc]) <;> rfl
+
+theorem settle_txBytes (no : Nat) : ∀ (o : List Out) (n : Nat), txBytes (settle n o).2 no = txBytes o no := by
+  intro o
+  induction o with
+  | nil => intro n; rfl
+  | cons x rest ih => intro n; cases x <;> simp [settle, txBytes, ih]
+
+theorem tally_settle (st : List Stat) (o : List Out) (n : Nat) : tally st (settle n o).2 = tally st o := by
+  simp [tally, settle_txCount, settle_txBytes]
+
+theorem finish_ok {n : Nat} {r : M (Sw × List Out)} {sw' : Sw} {outs : List Out} (h : finish n r = .ok (sw', outs)) :
+    ∃ sw1 o1, r = .ok (sw1, o1) ∧ sw' = { sw1 with bufFree := (settle n o1).1 } ∧ outs = (settle n o1).2 := by
+  cases r with
+  | error e => simp [finish] at h
+  | ok v =>
+    obtain ⟨a, b⟩ := v
+    simp only [finish, Except.ok.injEq, Prod.mk.injEq] at h
+    exact ⟨a, b, rfl, h.1.symm, h.2.symm⟩
+
 end Pox.Actions
